@@ -627,6 +627,23 @@ def check_tag_ends(ctx, prog, roles, per_fn, cfgname):
             if variant not in regs:
                 continue
             mine = [a for a in acts if a.bb in regs[variant]]
+            # the arm may hand the decoded marker to a marker-consuming function (`handle_tail_ws(ws)`): what that function
+            # does under its own switch (held to E1 / E2) is done for this tag end
+            for c in f.calls():
+                if c.bb not in regs[variant]:
+                    continue
+                g = prog.fns.get(c.name)
+                if g is None or not g.path.startswith(LEX) or not any(g.locals[l].get("adt") == WS and not g.locals[l].get("refs")
+                                                                       for l in range(1, g.argc + 1)):
+                    continue
+                decoded = True
+                for i, a in enumerate(c.args):
+                    if i + 1 <= g.argc and g.locals[i + 1].get("adt") == WS:
+                        os_ = flow.origins(f, a) if "c" not in a else [flow.Origin("const", const=a["c"])]
+                        if any(o.kind == "const" or (o.kind == "agg" and o.rv.get("adt") == WS) for o in os_):
+                            decoded = False
+                if decoded:
+                    mine = mine + [Action(a.cls, a.side, f, c.bb, "via " + g.path.replace(LEX, "") + ": " + a.what) for a in per_fn.get(g.path, [])]
             n += 1
             inst = "%s|%s" % (f.path.replace(LEX, ""), variant)
             ctx.ob(R4, inst + "|minus-trims" + tag, any(a.cls == "TRIM" for a in mine),
